@@ -74,6 +74,7 @@ func (h *holder) block(f func()) {
 			// (and that release used our token we gave up), and should no longer try to
 			// re-acquire.
 			if atomic.CompareAndSwapInt64(&h.status, blocked, acquired) {
+				verifYield("block.reacquire")
 				h.l.ch <- struct{}{}
 			}
 		}()
